@@ -609,14 +609,34 @@ type globalCall struct {
 	callee string
 }
 
-// readOnlyCallees: methods and functions that are documented as safe for concurrent use and do not change the
-// value they are handed (the compiled regexps, reflect.Type values, sort's read of a comparison table, fmt verbs).
+// readOnlyCallees: functions and methods of standard-library packages trusted, BY PACKAGE PATH, not to change the
+// value they are handed (the compiled regexps, reflect.Type values, fmt verbs). The trust is per package, not per
+// function, so it must not name a package whose ordinary use is to write through its argument: `sort` (sort.Sort,
+// sort.Slice, sort.Strings permute the slice in place) and `bytes` ((*bytes.Buffer).Write) are NOT on the list - a
+// package-level slice sorted in place, or a package-level buffer, is a globalCall fact. Of the packages that remain,
+// two have writers that are excluded by name below: (*strings.Builder) methods and the (reflect.Value).Set* family.
 func readOnlyCallee(callee *ssa.Function) bool {
 	if callee == nil || callee.Pkg == nil {
 		return false
 	}
 	switch callee.Pkg.Pkg.Path() {
-	case "regexp", "reflect", "fmt", "strings", "strconv", "unicode", "unicode/utf8", "errors", "math", "time", "bytes", "sort", "html", "net/url":
+	case "regexp", "reflect", "fmt", "strings", "strconv", "unicode", "unicode/utf8", "errors", "math", "time", "html", "net/url":
+		return !writerByName(callee)
+	}
+	return false
+}
+
+// writerByName: the members of the trusted packages that do write through their receiver.
+func writerByName(callee *ssa.Function) bool {
+	sig := callee.Signature
+	if sig == nil || sig.Recv() == nil {
+		return false
+	}
+	recv := sig.Recv().Type().String()
+	switch {
+	case strings.HasSuffix(recv, "strings.Builder"): // *strings.Builder: Write*, Grow, Reset
+		return true
+	case recv == "reflect.Value" && (strings.HasPrefix(callee.Name(), "Set") || callee.Name() == "Grow" || callee.Name() == "Clear"):
 		return true
 	}
 	return false
